@@ -161,8 +161,9 @@ def run_native(src, main, args, arch_spec):
     """evaluate the kernel source directly -> ('ok', ops) | ('err', ops_so_far, exc)"""
     rec = kernels.AodRecorder(arch_spec)
     try:
+        from gen import native_filled
         ns = kernels.define_native(src, rec.ns)
-        ns[main](*args)
+        ns[main](*native_filled.wrap(tuple(args)))
         return ("ok", rec.ops)
     except Exception as e:
         return ("err", rec.ops, type(e).__name__ + ": " + str(e)[:120])
